@@ -53,6 +53,9 @@ func Generate(r *rand.Rand, profile string) *Scenario {
 	if profile == "hetero" {
 		return generateHetero(r)
 	}
+	if profile == "npfs" {
+		return generateNpFs(r)
+	}
 	if profile == "bindfail" || profile == "overhead" || profile == "nested" || profile == "sharers" || profile == "elasticnom" {
 		return generateTight(r, profile)
 	}
@@ -1143,7 +1146,7 @@ func generateSaturation(r *rand.Rand) *Scenario {
 	pick := func(vs ...int) int { return vs[r.Intn(len(vs))] }
 	sc := &Scenario{Class: "sat"}
 	sc.Cfg = Cfg{Placement: []string{"binpack", "spread"}[r.Intn(2)], Consolidation: pick(0, 1), Signatures: pick(0, 1),
-		ConsReclaim: pick(0, 0, 1), SatMult: 1000, Cycles: pick(1, 2, 3), Env: "closed", FullHier: 1}
+		ConsReclaim: pick(0, 0, 1), SatMult: pick(1000, 1000, 1500, 2000), Cycles: pick(1, 2, 3), Env: "closed", FullHier: 1}
 	nn := pick(1, 2)
 	gpn := pick(2, 4)
 	cpn := pick(8000, 16000)
@@ -1759,6 +1762,75 @@ func generateHetero(r *rand.Rand) *Scenario {
 			}
 		}
 		add(2, pre, p)
+	}
+	sc.Normalize()
+	return sc
+}
+
+
+// generateNpFs: reclaim by NON-preemptible jobs around the fair share. One or two departments, three leaf queues with
+// small quotas and over-quota weights 0-2, the cluster full of preemptible 1-GPU pods spread over two of them (one
+// at or near its fair share, the other well above it), pending 1-GPU jobs: a non-preemptible one in the queue that
+// is at its fair share (its non-preemptible usage still far below the deserved quota), preemptible ones elsewhere,
+// and a third queue whose deserved quota is not used yet (its reserved share keeps the fair shares of the others
+// down). Saturation multiplier 1.0 - 2.0. 1-2 cycles.
+func generateNpFs(r *rand.Rand) *Scenario {
+	pick := func(vs ...int) int { return vs[r.Intn(len(vs))] }
+	chance := func(p float64) bool { return r.Float64() < p }
+	sc := &Scenario{Class: "npfs"}
+	sc.Cfg = Cfg{Placement: []string{"binpack", "spread"}[r.Intn(2)], Consolidation: 0, Signatures: pick(0, 1),
+		ConsReclaim: pick(0, 1), SatMult: pick(1000, 1000, 1500, 2000), Cycles: pick(1, 2), Env: "closed", FullHier: 1}
+	g := pick(4, 5, 6)
+	sc.Nodes = []Node{{Name: "n1", Cpu: 32000, Mem: 64000, Pods: 110, Gpus: g, GpuMem: 40000, Ready: 1}}
+	two := chance(0.5)
+	sc.Queues = []Queue{{Name: "d1", Parent: 0, Prio: 100, GQ: -1, GL: -1, GW: 1, CQ: -1, CL: -1, MQ: -1, ML: -1}}
+	dB := 1
+	if two {
+		sc.Queues[0].GQ = pick(2000, 3000)
+		sc.Queues = append(sc.Queues, Queue{Name: "d2", Parent: 0, Prio: 100, GQ: pick(1000, 2000), GL: -1, GW: pick(1, 2), CQ: -1, CL: -1, MQ: -1, ML: -1})
+		dB = 2
+	}
+	q := func(name string, parent, gq, w int) int {
+		sc.Queues = append(sc.Queues, Queue{Name: name, Parent: parent, Prio: 100, GQ: gq, GL: -1, GW: w, CQ: -1, CL: -1, MQ: -1, ML: -1})
+		return len(sc.Queues)
+	}
+	qa := q("qa", 1, pick(2, 2, 3)*1000, pick(0, 0, 1))
+	qb := q("qb", dB, pick(0, 1)*1000, pick(0, 1, 2))
+	qc := q("qc", pick(1, dB), pick(1, 2)*1000, pick(0, 1))
+	k := 0
+	add := func(queue, pre, node int) {
+		k++
+		ls, phase := -1, "P"
+		if node > 0 {
+			ls, phase = 36000, "R"
+		}
+		prio := 50
+		if pre == 0 {
+			prio = 100
+		}
+		sc.Jobs = append(sc.Jobs, Job{Name: fmt.Sprintf("j%d", k), Queue: queue, Prio: prio, Preempt: pre, Min: 1, Age: 600 + 60*r.Intn(60), LastStart: ls})
+		sc.Pods = append(sc.Pods, Pod{Name: fmt.Sprintf("j%d-p1", k), Job: k, Cpu: 500, Mem: 500, Gpu: 1, Phase: phase, Node: node})
+	}
+	na := sc.Queues[qa-1].GQ / 1000
+	if chance(0.3) {
+		na--
+	}
+	for i := 0; i < g; i++ {
+		if i < na {
+			add(qa, 1, 1)
+		} else {
+			add(qb, 1, 1)
+		}
+	}
+	add(qa, 0, 0) // the non-preemptible claimant of the queue at its fair share
+	if chance(0.4) {
+		add(qa, 0, 0)
+	}
+	for i := 0; i < pick(0, 1, 1, 2); i++ {
+		add(qc, 1, 0)
+	}
+	if chance(0.3) {
+		add(qb, 1, 0)
 	}
 	sc.Normalize()
 	return sc
